@@ -1,4 +1,6 @@
 import MosnVerif.Drive.DispatchCtx
+import MosnVerif.Drive.BufReuse
+import MosnVerif.Drive.HpackOrder
 import MosnVerif.Drive.Util
 import MosnVerif.Model.StreamTableSpec
 import MosnVerif.Model.CorrelateSpec
@@ -247,6 +249,8 @@ def run (caseToks impl : List String) : String :=
   | ["tbl", pr, base, ops] => tbl pr base ops impl
   | ["gen", pr, base, n] => genLine pr base n impl
   | ["ctx", proto, _stream, frames, chunks] => MosnVerif.Drive.DispatchCtx.run proto frames chunks impl
+  | ["h1b", _nconn, plan] => MosnVerif.Drive.BufReuse.run plan impl
+  | ["h2w", side, _mode, _w, resps] => MosnVerif.Drive.HpackOrder.run side resps impl
   | _ => "E E unknown-kind"
 
 end MosnVerif.Drive.C02
